@@ -40,11 +40,11 @@ CHECKS = {
         "level": "exploration",
         "manifest": {
             "technique": "differential property-based testing (rapid): the same generated program and requests served through the real request path (parseSource -> setupRoutes -> createHandler) in compiled mode and with --interpret; status and JSON body must agree",
-            "level_text": "Generated modules (arithmetic, comparisons, strings, the builtins both engines implement, if/while/for/switch/match with literal and variable patterns, guards, status returns, typed query parameters, path parameters, JSON bodies, 3% ill-typed operands) are started in both execution modes inside cmd/glyph and hit with the same generated HTTP requests; any difference in status or normalised JSON body is a violation. Classes of programs for which the pinned tree is known to diverge (known_findings.json) are switched off in the generator and counted, and each is re-checked through its witness.",
-            "level_note": "Differential only: if both engines are wrong in the same way the check is silent (C01 covers the interpreter against a reference). Modules that compiled mode refuses at start-up (semantic errors) are outside 'programs the runtime accepts' and are counted as discarded. Five divergence classes are recorded as open findings and excluded from generation.",
+            "level_text": "Generated modules (arithmetic, comparisons, strings, the builtins both engines implement, if/while/for/switch/match with literal and variable patterns, guards, status returns, typed query parameters, path parameters, JSON bodies, 3% ill-typed operands) are started in both execution modes inside cmd/glyph and hit with the same generated HTTP requests; any difference in status or normalised JSON body is a violation. Per case a mood is drawn (clean / mild / full fault rate) so that most programs run to completion and the final return of most routes also hands back every route-scope variable. Two further units: an enumerated matrix of every operator and statement position x ~70 operand shapes (literals, variables, every operator's result, calls, field/index, match, request-derived values such as a repeated query parameter) with all values arriving at run time, and a builtin-level differential (length upper lower trim split join contains replace substring + == < [] arithmetic) over strings with multi-byte runes and integers placed around 0, the rune count and the byte length. Classes of programs for which the pinned tree is known to diverge (known_findings.json) are switched off in the generator and counted, and each is re-checked through its witness.",
+            "level_note": "Differential only: if both engines are wrong in the same way the check is silent (C01 covers the interpreter against a reference). Modules that compiled mode refuses at start-up (semantic errors) are outside 'programs the runtime accepts' and are counted as discarded. Seven divergence classes are recorded as open findings and excluded from generation (or, in the enumerated matrix, attributed by their exact shape).",
         },
         "rule": ("rapid-generated modules (1-2 routes, expression depth <=4, nesting <=3) with 1-3 HTTP requests per route, served in compiled mode and in interpreter mode; "
-                 "non-trivial = the module really ran as compiled bytecode (no fallback) and contains a branch, loop or match; distinct = hash of (source, requests)"),
+                 "non-trivial = the module really ran as compiled bytecode (no fallback) and contains a branch, loop or match; matrix: the program really ran compiled; builtins: a multi-byte string argument or a refused call; distinct = hash of (source, requests)"),
         "assumptions": [
             "both handlers are built by the CLI's own setupRoutes/createHandler; requests are delivered with httptest (no socket)",
             "JSON bodies are compared after decoding (key order and 5 vs 5.0 are not observable differences)",
@@ -167,7 +167,7 @@ CHECKS = {
         "level": "exploration",
         "manifest": {
             "technique": "property-based fuzzing (rapid, structured generators with a data-provider layer) of the lexer, expanded lexer, parser, VM and decompiler with a resource oracle inside the target, plus a round-trip check of compiler output against an independent bytecode decoder; native coverage-guided go fuzzing in the thorough tier",
-            "level_text": "Source: random bytes, token soup, byte-mutated valid programs and 22 recursive constructs nested 10..100000 deep (1000000 in the thorough tier) go through Lexer.Tokenize, ExpandedLexer.Tokenize and Parser.Parse. Bytecode: files assembled from a header, constant pool and opcode stream with hostile counts, lengths, operands and jump targets go through vm.Execute (step limit set) and Decompile/Format. Oracle: a result or a diagnostic; no panic; no process death (journalled); allocated bytes <= 16 MiB + 256 x input length and stack growth <= 64 MiB + 1 KiB x length; no goroutine outliving the call; still running after 60 s with the step limit set is a violation. Round trip: every compiled route must decode with an independent decoder to the same constants and instruction boundaries the decompiler reports, and the VM must load it with no loader-class error.",
+            "level_text": "Source: random bytes, token soup, byte-mutated valid programs and 22 recursive constructs nested 10..100000 deep (1000000 in the thorough tier) go through Lexer.Tokenize, ExpandedLexer.Tokenize and Parser.Parse. Bytecode: files assembled from a header, constant pool and opcode stream with hostile counts, lengths, operands and jump targets go through vm.Execute (step limit set) and Decompile/Format; well-formed images that call each VM builtin (PUSH name, PUSH args, CALL n) with hostile constants - multi-byte, invalid-UTF-8 and long strings, integers around 0, the rune count, the byte length and the ends of int64, every constant kind and arity 0..4 - must give the documented value or a diagnostic (an out-of-range substring index is never a padded string). Oracle: a result or a diagnostic; no panic; no process death (journalled); allocated bytes <= 16 MiB + 256 x input length and stack growth <= 64 MiB + 1 KiB x length; no goroutine outliving the call; still running after 60 s with the step limit set is a violation. Round trip: every compiled route must decode with an independent decoder to the same constants and instruction boundaries the decompiler reports, and the VM must load it with no loader-class error.",
             "level_note": "The allocation constants are 10x the worst ratio seen on the valid corpus. The independent decoder's operand table was written from vm.go's read sites, not from the decompiler. Go's native fuzzer cannot be seeded, so its campaigns (thorough tier) only ever add saved crashers to the replay corpus.",
         },
         "rule": ("rapid-generated inputs: source (bytes / token soup / mutated valid programs / deep nesting), structured bytecode, and compiled programs for the round trip; "
